@@ -6,6 +6,7 @@ pub mod c03;
 pub mod c04;
 pub mod c06;
 pub mod c07;
+pub mod c08;
 pub mod c36;
 
 pub fn run(ctx: &Ctx, id: &str) -> bool {
@@ -16,6 +17,7 @@ pub fn run(ctx: &Ctx, id: &str) -> bool {
         "C04" => c04::run(ctx),
         "C06" => c06::run(ctx),
         "C07" => c07::run(ctx),
+        "C08" => c08::run(ctx),
         "C36" => c36::run(ctx),
         _ => return false,
     }
